@@ -535,6 +535,7 @@ func init() {
 		c.Rule = "family graphs (2-9 people, 1-4 families) whose names/nicknames/alternative names/places are unique marker tokens, living people in every role (child, spouse, parent, unconnected, sharing a surname or place with a dead person, living only by the age rule, burial without death, no dates) x {hide, placeholder} x page-group subsets x jobs 1-4; distinct = (living kind, role, visibility, page groups)"
 		now := time.Now().Year()
 		c17Components(c, now)
+		c17SpecialSites(c, now)
 
 		ndocs := c.N(150, 1600)
 		type siteRun struct {
@@ -638,7 +639,7 @@ func init() {
 							vis  string
 							site *c17Site
 						}{{"show", sr.show}, {"placeholder", sr.ph}, {"hide", sr.hideA}} {
-							c.Tie(fmt.Sprintf("c17site %s %s %s", m.vis, ob, abs), c17SiteSkeleton(m.site, ranks[m.vis]))
+							c.Tie(fmt.Sprintf("c17site %s %s %s", m.vis, ob, abs), c17SiteSkeleton(m.site, ranks[m.vis], c17SourcePagesOf(gdoc)))
 							c.Eval()
 							c.Count("site-skeleton/" + m.vis)
 						}
